@@ -19,6 +19,11 @@
 (***************************************************************************)
 EXTENDS KmipTypes, KmipPolicy, TLC
 
+\* Negative-control switch: "none" is the engine as specified; any other value
+\* switches one protecting mechanism off (selftest: TLC must then find a
+\* violation of the corresponding property).
+CONSTANT Mut
+
 --------------------------------------------------------------------------
 (* results *)
 
@@ -60,13 +65,19 @@ AddObj(st, o) == [st EXCEPT !.objs = PutObj(st.objs, NextUid(st), Stored(o)),
                             !.seq = NextUid(st), !.ph = NextUid(st)]
 
 Allowed(st, id, u, op) ==
-    LET o == st.objs[u] IN ImplAllowed(st.pols, o.policy, id, o.owner, o.type, op)
+    LET o == st.objs[u] IN Mut = "no_access" \/ ImplAllowed(st.pols, o.policy, id, o.owner, o.type, op)
 
 \* _get_object_with_access_controls: identifier or placeholder, lookup, access
 Target(st, uidArg) == IF uidArg = NoUid THEN st.ph ELSE uidArg
 
 Load(st, id, uidArg, op) ==
     LET u == Target(st, uidArg) IN
+    IF u \notin Uids(st) THEN [ok |-> FALSE, u |-> u, reason |-> "ItemNotFound"]
+    ELSE IF ~Allowed(st, id, u, op) THEN [ok |-> FALSE, u |-> u, reason |-> "PermissionDenied"]
+    ELSE [ok |-> TRUE, u |-> u, reason |-> ""]
+
+\* identifiers listed in a payload are literal (no placeholder substitution)
+LoadDirect(st, id, u, op) ==
     IF u \notin Uids(st) THEN [ok |-> FALSE, u |-> u, reason |-> "ItemNotFound"]
     ELSE IF ~Allowed(st, id, u, op) THEN [ok |-> FALSE, u |-> u, reason |-> "PermissionDenied"]
     ELSE [ok |-> TRUE, u |-> u, reason |-> ""]
@@ -219,6 +230,8 @@ H_Register(st, req, p) ==
     ELSE LET t == Tmpl(p.attrs, req.ver) IN
     IF t.err # "" THEN Fail(st, t.err)
     ELSE IF p.obj.wrapped \/ p.otype = "SplitKey" THEN Unmodelled(st)
+    \* a symmetric key whose stated length does not match its value is refused
+    ELSE IF p.otype = "SymmetricKey" /\ p.obj.len # 8 * p.obj.vlen THEN Fail(st, "InvalidField")
     ELSE LET base == [NewObj(p.otype, req.user, req.now) EXCEPT
                         !.alg = IF HasAlg(p.otype) THEN p.obj.alg ELSE "NA",
                         !.len = IF HasAlg(p.otype) THEN p.obj.len ELSE 0,
@@ -232,7 +245,7 @@ H_Register(st, req, p) ==
 RECURSIVE DeriveBases(_, _, _, _)
 DeriveBases(st, id, uids, i) ==   \* "" or the failure reason of the first bad base object
     IF i > Len(uids) THEN [err |-> "", mc |-> ""]
-    ELSE LET l == Load(st, id, uids[i], "Get") IN
+    ELSE LET l == LoadDirect(st, id, uids[i], "Get") IN
          IF ~l.ok THEN [err |-> l.reason, mc |-> "NotFound"]
          ELSE LET o == st.objs[l.u] IN
               IF o.type \notin {"SecretData", "SymmetricKey", "PublicKey", "PrivateKey"} THEN [err |-> "InvalidField", mc |-> "Other"]
@@ -260,7 +273,7 @@ H_Activate(st, req, p) ==
     IF ~l.ok THEN NotFound(st, l)
     ELSE LET o == st.objs[l.u] IN
     IF ~HasState(o.type) THEN Fail(st, "IllegalOperation")
-    ELSE IF o.state # "PreActive" THEN Fail(st, "PermissionDenied")
+    ELSE IF o.state # "PreActive" /\ Mut # "activate_any" THEN Fail(st, "PermissionDenied")
     ELSE Ok([st EXCEPT !.objs[l.u].state = "Active"], <<l.u>>)
 
 H_Revoke(st, req, p) ==
@@ -271,14 +284,14 @@ H_Revoke(st, req, p) ==
     IF ~HasState(o.type) THEN Fail(st, "IllegalOperation")
     ELSE IF p.code = "KEY_COMPROMISE"
          THEN Ok([st EXCEPT !.objs[l.u].state = "Compromised"], <<l.u>>)
-         ELSE IF o.state # "Active" THEN Fail(st, "IllegalOperation")
+         ELSE IF o.state # "Active" /\ Mut # "revoke_any" THEN Fail(st, "IllegalOperation")
               ELSE Ok([st EXCEPT !.objs[l.u].state = "Deactivated"], <<l.u>>)
 
 H_Destroy(st, req, p) ==
     LET l == Load(st, Ident(req), p.uid, "Destroy") IN
     IF ~l.ok THEN NotFound(st, l)
     ELSE LET o == st.objs[l.u] IN
-    IF HasState(o.type) /\ o.state = "Active" THEN Fail(st, "PermissionDenied")
+    IF HasState(o.type) /\ o.state = "Active" /\ Mut # "destroy_active" THEN Fail(st, "PermissionDenied")
     ELSE Ok([st EXCEPT !.objs = DelObj(st.objs, l.u)], <<l.u>>)
 
 --------------------------------------------------------------------------
@@ -325,6 +338,11 @@ AttrsOfNames(o, u, names, i, ver) ==
 
 AllRuleNames == [i \in DOMAIN AttrRules |-> AttrRules[i].name]
 
+RECURSIVE DedupFrom(_, _, _)
+DedupFrom(s, i, acc) == IF i > Len(s) THEN acc
+                        ELSE DedupFrom(s, i + 1, IF s[i] \in Range(acc) THEN acc ELSE Append(acc, s[i]))
+Dedup(s) == DedupFrom(s, 1, <<>>)
+
 H_GetAttributes(st, req, p) ==
     LET l == Load(st, Ident(req), p.uid, "GetAttributes") IN
     IF ~l.ok THEN NotFound(st, l)
@@ -335,7 +353,8 @@ H_GetAttributeList(st, req, p) ==
     LET l == Load(st, Ident(req), p.uid, "GetAttributeList") IN
     IF ~l.ok THEN NotFound(st, l)
     ELSE LET as == AttrsOfNames(st.objs[l.u], l.u, AllRuleNames, 1, req.ver) IN
-         [Ok(st, <<l.u>>) EXCEPT !.names = [i \in DOMAIN as |-> as[i].name]]
+         \* the response payload keeps the first occurrence of each name
+         [Ok(st, <<l.u>>) EXCEPT !.names = Dedup([i \in DOMAIN as |-> as[i].name])]
 
 \* p = [uid, fmt ("" = none), comp ("" = none), wrap (bool), w = [method, haskey, kuid, hasmac, anames (bool), enc]]
 H_Get(st, req, p) ==
@@ -348,9 +367,9 @@ H_Get(st, req, p) ==
     ELSE IF ~p.wrap THEN Ok(st, <<l.u>>)
     ELSE IF p.w.method # "ENCRYPT" THEN Fail(st, "OperationNotSupported")
     ELSE IF p.w.haskey
-         THEN LET k == Load(st, Ident(req), p.w.kuid, "Get") IN
+         THEN LET k == LoadDirect(st, Ident(req), p.w.kuid, "Get") IN
               \* any failure to load the wrapping key is reported as not found
-              IF ~k.ok \/ p.w.kuid = NoUid THEN Fail(st, "ItemNotFound")
+              IF ~k.ok THEN Fail(st, "ItemNotFound")
               ELSE LET ko == st.objs[k.u] IN
               IF ko.type # "SymmetricKey" THEN Fail(st, "IllegalOperation")
               ELSE IF ko.state # "Active" THEN Fail(st, "PermissionDenied")
@@ -369,8 +388,8 @@ H_CryptoUse(st, req, op, p) ==
     ELSE LET o == st.objs[l.u] IN
     IF ~p.hascp THEN Fail(st, "InvalidField")
     ELSE IF o.type \notin KindFor(op) THEN Fail(st, "PermissionDenied")
-    ELSE IF o.state # "Active" THEN Fail(st, "PermissionDenied")
-    ELSE IF BitFor(op) \notin o.mask THEN Fail(st, "PermissionDenied")
+    ELSE IF o.state # "Active" /\ Mut # "use_inactive" THEN Fail(st, "PermissionDenied")
+    ELSE IF BitFor(op) \notin o.mask /\ Mut # "use_unmasked" THEN Fail(st, "PermissionDenied")
     ELSE Backend(st, <<l.u>>)
 
 \* p = [uid, hasalg (bool: algorithm given in the parameters), hasdata]
@@ -443,7 +462,7 @@ Slice(s, off, max) ==
     IN IF max < 0 THEN rest ELSE SubSeq(rest, 1, Min2(max, Len(rest)))
 
 \* p = [filters, offset (-1 = none), max (-1 = none)]
-LocateVisible(st, id) == {u \in Uids(st) : Allowed(st, id, u, "Locate")}
+LocateVisible(st, id) == {u \in Uids(st) : Mut = "locate_unfiltered" \/ Allowed(st, id, u, "Locate")}
 
 H_Locate(st, req, p) ==
     LET vis == LocateVisible(st, Ident(req))
@@ -636,8 +655,7 @@ BatchFold(st, req, k, acc) ==
 
 \* request level: version, time stamp, asynchronous indicator, Undo, batch ids;
 \* the placeholder is valid within one batch only
-RunRequest(st0, req) ==
-    LET st == [st0 EXCEPT !.ph = NoUid] IN
+RunRequestFrom(st, req) ==
     IF req.ver \notin SupportedVersions THEN Raised(st, "InvalidMessage", "Version")
     ELSE IF req.ts = "Future" THEN Raised(st, "InvalidMessage", "Future")
     ELSE IF req.ts = "Stale" THEN Raised(st, "InvalidMessage", "Stale")
@@ -646,6 +664,8 @@ RunRequest(st0, req) ==
     ELSE IF Len(req.items) > 1 /\ \E k \in DOMAIN req.items : req.items[k].bid = ""
          THEN Raised(st, "InvalidMessage", "BatchId")
     ELSE BatchFold(st, req, 1, <<>>)
+
+RunRequest(st0, req) == RunRequestFrom([st0 EXCEPT !.ph = NoUid], req)
 
 \* a server restart keeps the database and resets the transient fields
 Restart(st) == [st EXCEPT !.ph = NoUid]
